@@ -1,5 +1,6 @@
 import Percival.Proofs.AesCtr
 import Percival.Proofs.AesNi
+import Percival.Proofs.AesStep
 /-!
 # C02 — AES-CTR stream = SP 800-38A keystream (property theorems only; helpers are in `Proofs/AesCtr.lean`)
 
@@ -244,5 +245,117 @@ theorem gen_aesni_immediates :
     Gen.AesConst.nr128 = 10 ∧ Gen.AesConst.nr256 = 14 ∧
     Gen.AesConst.aesencIdx = [1, 2, 3, 4, 5, 6, 7, 8, 9] ∧ Gen.AesConst.aesencIdxLong = [10, 11, 12, 13] := by
   decide
+
+/-! ## The function the executable runs
+
+`pmodel aes [hw]` is `render ∘ Model.AesStep.stepOp ∘ parse` (`Driver/Aes.lean`).  `stepOp` keeps, next to the model's
+`struct crypto_aesctr`, a Spec-side description of the stream (`skey`, `nonce`, `pos`) from which the L1 part of
+every line is computed, and compares the model's bytes with it (`same`; printed as `model!=spec` when false).
+`Proofs.AesStep.ExecInv st`: if a stream object is live, the representation invariant of `struct crypto_aesctr`
+holds for `skey`/`nonce` and `bytectr = pos`.  `Op.inContract`: fewer than 2⁶⁴ bytes per stream life (`stream`,
+`streamzero`: `pos + length < 2⁶⁴`; the white-box `seek nb`: `16·nb < 2⁶⁴`; `buf`: `length < 2⁶⁴`) — beyond it the
+C's `uint64_t bytectr` wraps and the Spec's position does not, so the hypothesis cannot be dropped.  No op breaks the
+invariant deliberately: the white-box ops `seek` and `bigstream` write down a state that *satisfies* it
+(`exec_seek_is_streamed_state`), and `raw` (the poison bytes of a fresh object) is overwritten by `init`. -/
+section exec
+open Percival.Model.AesStep Percival.Proofs.AesStep
+
+/-- **Invariant preservation, per step.**  From a state whose Spec-side bookkeeping describes the model's stream
+    object, every op within the contract leads to such a state, and its answer is neither `model!=spec` (the model's
+    bytes are the Spec's) nor `model-oob` (no out-of-bounds access, failed `assert` or exhausted loop in the model). -/
+theorem exec_step_preserves_invariant (st : St) (h : ExecInv st) (op : Op) (hc : op.inContract st = true) :
+    ExecInv (stepOp st op).1 ∧ (stepOp st op).2.mismatch = false ∧ (stepOp st op).2 ≠ .modelOob :=
+  stepOp_inv st h op hc
+
+/-- the hypotheses hold at a state with a live stream in the middle of a block (AES-256, position 20) -/
+example : ExecInv (runOps {} [.expand (List.replicate 32 1), .init 5, .stream (List.replicate 20 7)]).1 ∧
+    ((runOps {} [.expand (List.replicate 32 1), .init 5, .stream (List.replicate 20 7)]).1.live.map (·.pos)) = some 20 ∧
+    (Op.stream [1, 2, 3]).inContract
+      (runOps {} [.expand (List.replicate 32 1), .init 5, .stream (List.replicate 20 7)]).1 = true :=
+  ⟨(runOps_inv _ _ (init_inv false) (by decide +kernel)).1, by decide +kernel, by decide +kernel⟩
+
+/-- **The executable never prints `model!=spec`.**  For every op sequence within the contract, from the initial
+    state of `pmodel aes` (`hw = false`) and of `pmodel aes hw`: no answer has `same = false` and none is `model-oob`.
+    So on every `stream`/`streamzero`/`bigstream`/`buf` line the bytes computed by the statement-level model of
+    crypto_aesctr*.c (either routing) are the L1 part, which is `Spec.Ctr.streamAt`/`stream` of FIPS-197 AES. -/
+theorem exec_never_model_ne_spec (hw : Bool) (ops : List Op) (hc : allInContract { hw := hw } ops = true) :
+    ∀ o ∈ (runOps { hw := hw } ops).2, o.mismatch = false ∧ o ≠ .modelOob :=
+  (runOps_inv ops _ (init_inv hw) hc).2
+
+/-- non-vacuity: a run within the contract whose answers are stream answers (not `skip`): AES-128, a 20-byte call
+    crossing a block boundary on the bulk routing, a white-box jump to block 2⁵⁶ − 1, a 33-byte call carrying
+    through seven counter bytes, `init2` with a new 256-bit key, a 3-byte call -/
+example :
+    let ops : List Op := [.expand (List.replicate 16 3), .init 0x0102030405060708, .stream (List.replicate 20 7),
+      .seek (2^56 - 1), .stream (List.replicate 33 9), .init2 6 (some (List.replicate 32 4)), .stream [1, 2, 3]]
+    allInContract { hw := true } ops = true ∧
+    ((runOps { hw := true } ops).2.map fun
+      | .stream w same s => (w.length, same, s.bytectr.toNat)
+      | .state s => (0, false, s.bytectr.toNat)
+      | _ => (0, false, 0)) =
+      [(0, false, 0), (0, false, 0), (20, true, 20), (0, false, 16 * (2^56 - 1)), (33, true, 16 * (2^56 - 1) + 33),
+       (0, false, 0), (3, true, 3)] := by decide +kernel
+
+/-- **The Spec-side bookkeeping is the Spec.**  After `expand key; init nonce`, the L1 parts of any sequence of
+    `stream` lines (any sizes, < 2⁶⁴ bytes in total), concatenated, are SP 800-38A CTR with FIPS-197 AES of the
+    concatenated inputs; each line has `same = true`. -/
+theorem exec_stream_lines_are_spec_stream (hw : Bool) (key : List UInt8) (hk : key.length = 16 ∨ key.length = 32)
+    (nonce : UInt64) (ds : List (List UInt8)) (hlim : ds.flatten.length < 2^64) :
+    ∃ o1 o2 outs, (runOps { hw := hw } (.expand key :: .init nonce :: ds.map .stream)).2 = o1 :: o2 :: outs ∧
+      outs.length = ds.length ∧ (∀ o ∈ outs, ∃ w s, o = .stream w true s) ∧
+      (outs.map Out.want).flatten = Ctr.stream (Aes.encryptBlock key) nonce ds.flatten := by
+  obtain ⟨hwf, hx⟩ := expandKey_eq key hk
+  obtain ⟨s0, h0, hl0⟩ := init_spec ⟨Aes.keyExpansion key, hwf⟩ nonce
+  have hrun := runStreams_spec ds
+    { hw := hw, key := some ⟨Aes.keyExpansion key, hwf⟩, nikey := Model.AesNi.keyExpand key,
+      live := some { s := s0, skey := ⟨Aes.keyExpansion key, hwf⟩, nonce := nonce, pos := 0 } }
+    _ rfl hl0 (by simpa using hlim)
+  refine ⟨.expanded (if hw then some ((Model.AesNi.keyExpand key).map (·.rkeys.flatten)) else none), .state s0, _, ?_,
+    hrun.1, hrun.2.1, ?_⟩
+  · simp only [runOps, stepOp, hx, h0]
+  · rw [hrun.2.2]
+    show Ctr.streamAt (enc ⟨Aes.keyExpansion key, hwf⟩) nonce 0 ds.flatten = _
+    rw [← stream_eq_streamAt _ _ (enc_length _)]; rfl
+
+example : (([[1, 2, 3], [], List.replicate 30 (9 : UInt8)] : List (List UInt8)).flatten.length < 2^64) := by decide
+
+/-- **The white-box `seek` is justified.**  `seek (n+1)` applied to a stream object with any history `before` writes
+    down exactly the state that the same object has after *any* sequence of calls totalling `16·(n+1)` bytes
+    (`counter_block_at_any_index`: counter field = be64(n)), except that `buf` keeps its contents — and `buf` is
+    not read before the next `cipherblock_generate` at a block boundary (`Proofs.AesStep.inv_setBuf`). -/
+theorem exec_seek_is_streamed_state (key : Key) (nonce : UInt64) (before calls : List Call) (n : Nat)
+    (hb : (allInput before).length < 2^64) (hk : (allInput calls).length = 16 * (n + 1)) (hlim : 16 * (n + 1) < 2^64) :
+    ∃ s0 sb outsb s outs, init raw key nonce = some s0 ∧ streamCalls enc s0 before = some (sb, outsb) ∧
+      streamCalls enc s0 calls = some (s, outs) ∧ seekState sb n = some { s with buf := sb.buf } := by
+  obtain ⟨s0, h0, hinv, hz⟩ := init2_spec enc
+    { key := key, bytectr := raw.bytectr, buf := raw.buf, pblk := raw.pblk } (some key) nonce raw_len
+  have hz' : s0.bytectr.toNat = 0 := by rw [hz]; rfl
+  obtain ⟨sb, outsb, hrb, _, _, hinvb, _⟩ :=
+    streamCalls_spec enc enc_length key nonce before s0 hinv (by rw [hz']; simpa [inputs] using hb)
+  have hin : (inputs calls).length = 16 * (n + 1) := by simpa [inputs] using hk
+  obtain ⟨s, outs, hr, _, _, hinvs, hpos⟩ :=
+    streamCalls_spec enc enc_length key nonce calls s0 hinv (by rw [hz', hin]; omega)
+  rw [hz', hin, Nat.zero_add] at hpos
+  exact ⟨s0, sb, outsb, s, outs, h0, hrb, hr, seekState_eq_streamed key nonce sb s n hinvb hinvs hpos⟩
+
+example : (allInput [⟨List.replicate 20 0, true⟩, ⟨List.replicate 12 0, false⟩]).length = 16 * (1 + 1) := by decide
+
+/-- **`pmodel aes hw`: the instruction-level L2 parts are the Spec's.**  For every op sequence (no contract needed): the
+    ciphertext that the AESENC/AESENCLAST model prints after `ni=` on a `block` line is the FIPS-197 ciphertext printed
+    as L1, and the round keys printed after `rk=` on an `expand` line are FIPS-197 KeyExpansion of the key given —
+    never `model-oob`. -/
+theorem exec_hw_l2_eq_spec (hw : Bool) (ops : List Op) :
+    ∀ o ∈ (runOps { hw := hw } ops).2, (∀ ct ni, o = .block ct (some ni) → ni = some ct) ∧
+      (∀ rk, o = .expanded (some rk) → ∃ k, rk = some (Aes.keyExpansion k).flatten) :=
+  runOps_hw_l2 ops _ (init_keyInv hw)
+
+example : ((runOps { hw := true } [.expand Gen.AesConst.selfTestKey1, .block Gen.AesConst.selfTestPtext1]).2.map fun
+      | .block ct (some ni) => (ct, ni)
+      | .expanded (some (some rk)) => ([], some (rk.take 4))
+      | _ => ([], none)) =
+    [([], some (Gen.AesConst.selfTestKey1.take 4)), (Gen.AesConst.selfTestCtext1, some Gen.AesConst.selfTestCtext1)] := by
+  decide +kernel
+
+end exec
 
 end Percival.C02
